@@ -29,6 +29,7 @@ ENC = re.compile(r"CryptoKey(>)?::encrypt_data$|DecryptBackend::<C>::(encrypt_fi
 
 def run(ctx, rep):
     prog = ctx.prog
+    wiring_rule(ctx, rep, "C04")
     for r, tx in (("C04.a", "exactly KeyFile is stored unencrypted"), ("C04.b", "write_bytes content derives from encrypt_data (frozen exceptions)"),
                   ("C04.c", "fresh random nonce per message"), ("C04.d", "plaintext is released only after AEAD verification"),
                   ("C04.e", "ids are verified on read"), ("C04.f", "key handling")):
